@@ -329,6 +329,25 @@ def main(tier, replay=None):
         for fully in (False, True):
             run_case(dict(source={"kind": "shipped", "name": name}, modes={"fully_obs": fully},
                           ops=[("p", i, "lo", i) for i in range(12)]), rep)
+    # unbalanced feature blocks (more OS than services, more processes than services, ...): every host scanned with
+    # every scan type after it was compromised, partially and fully observable
+    import copy
+    from .check_c20 import STAR
+    for oss, srvs, procs in ((["linux"], ["ssh"], ["tomcat", "cron", "daclsvc"]), (["a", "b", "c", "d"], ["ssh", "ftp"], ["tomcat"]),
+                             (["linux", "bsd"], ["ssh", "ftp", "http", "smtp", "x"], ["tomcat", "cron"])):
+        d = copy.deepcopy(STAR)
+        d["os"], d["services"], d["processes"] = list(oss), list(srvs), list(procs)
+        d["exploits"]["e"]["prob"] = 1.0
+        for k_, cfg in enumerate(d["host_configurations"].values()):
+            cfg["os"] = oss[k_ % len(oss)]
+            cfg["services"] = ["ssh"] + [x for j_, x in enumerate(srvs[1:]) if (j_ + k_) % 2]
+            cfg["processes"] = [x for j_, x in enumerate(procs) if (j_ + k_) % 2 == 0]
+        spec_ = M.Spec.from_doc(d)
+        acts_ = M.flat_actions(spec_)
+        scans = [i for i, a in enumerate(acts_) if a.kind in M.SCANS]
+        for fully in (False, True):
+            run_case(dict(source={"kind": "doc", "doc": d, "flow": None}, modes={"fully_obs": fully},
+                          ops=[("p", 0, "lo", i) for i in range(8)] + [("f", i, "lo", 0) for i in scans]), rep)
     nshards = 16 if tier == "thorough" else 8
     total = 16 * 3000 if tier == "thorough" else 640
     for p in engine.run_shards(_shard, nshards, common.verif_seed(), tier=tier, n_cases=total // nshards):
